@@ -21,7 +21,7 @@ META = dict(
 
 TYPES = [0, 1, 6, 254]
 LENS = [0, 1, 2, 254, 255, 256, 257, 509, 510, 511, 765, 766]
-SYMS = [0, 1, 2, 3, 254, 255]
+SYMS = [0, 1, 2, 3, 7, 254, 255]
 
 
 def _tlv():
